@@ -15,6 +15,23 @@ import (
 // re-entrant observers: what the callback does besides counting
 var reKinds = []string{"registers-observer", "reads-getters", "calls-setvalues", "triggers-reload"}
 
+// raceParser wraps the real parser: right after a Read (i.e. after reload has taken the file's stamp and
+// read its content) it runs a hook once — an external edit landing in the middle of the reload.
+type raceParser struct {
+	inner conffile.FileParser
+	hook  func()
+}
+
+func (p *raceParser) Read(path string) (map[string]string, error) {
+	m, err := p.inner.Read(path)
+	if hk := p.hook; hk != nil {
+		p.hook = nil
+		hk()
+	}
+	return m, err
+}
+func (p *raceParser) Write(path string, m *map[string]string) error { return p.inner.Write(path, m) }
+
 // dropLine removes one physical line of text (an external edit that removes a key or a comment).
 func dropLine(r *vh.Rng, text string) (string, bool) {
 	ls := strings.SplitAfter(text, "\n")
@@ -99,6 +116,13 @@ func (h *harness) streamHistory(n, maxSteps int) {
 				h.add(c)
 			}
 		}
+		deferE := false // an edit made from inside a reload: its model line goes after that reload's line
+		var pendingE []check
+		type fileVer struct {
+			text     string
+			ns, size int64
+		}
+		var racePre *fileVer // what the file was when the racing reload looked at it
 		edit := func(recreate bool) {
 			var text string
 			sameLen := false
@@ -179,8 +203,12 @@ func (h *harness) streamHistory(n, maxSteps int) {
 			curNs, curSize = statNs(path)
 			curText = text
 			exists = true
-			logOp("edit", "text", text, "mtime_ns", curNs, "mtime", mode, "same_length", sameLen, "recreated", recreate)
-			add(check{line: fmt.Sprintf("E %d %s", curNs, encStr(text)), want: "ok"})
+			logOp("edit", "text", text, "mtime_ns", curNs, "mtime", mode, "same_length", sameLen, "recreated", recreate, "during_reload", deferE)
+			if deferE {
+				pendingE = append(pendingE, check{line: fmt.Sprintf("E %d %s", curNs, encStr(text)), want: "ok"})
+			} else {
+				add(check{line: fmt.Sprintf("E %d %s", curNs, encStr(text)), want: "ok"})
+			}
 		}
 
 		// ---- observers
@@ -274,7 +302,8 @@ func (h *harness) streamHistory(n, maxSteps int) {
 		}
 		var ce *cfgEnv
 		logOp("construct")
-		if oc := vh.GuardTimeout(watchdog, func() { ce = newCfgObs(dir, observer) }); oc.Timeout || ce == nil {
+		rp := &raceParser{inner: conffile.NewDefaultFileParser()}
+		if oc := vh.GuardTimeout(watchdog, func() { ce = newCfgObs(dir, observer, conffile.WithParser(rp)) }); oc.Timeout || ce == nil {
 			if oc.Timeout {
 				hang("the constructor's reload")
 			} else {
@@ -287,6 +316,7 @@ func (h *harness) streamHistory(n, maxSteps int) {
 		// the model registers "verif" after the pre-observers but before the first reload: same order of ids? ids are
 		// only labels; counts are compared per id.
 		var prevVer [2]int64 = [2]int64{-1, -1}
+		prevRaced := false // the previous reload had an edit landing in its middle
 		prevCount := 0
 		afterReload := func() {
 			logOp("reload", "notified", ce.obs.count)
@@ -299,6 +329,11 @@ func (h *harness) streamHistory(n, maxSteps int) {
 				return
 			}
 			if exists {
+				// the file as this reload saw it (an edit that landed during the reload comes after it)
+				curText, curNs, curSize := curText, curNs, curSize
+				if racePre != nil {
+					curText, curNs, curSize = racePre.text, racePre.ns, racePre.size
+				}
 				ver := [2]int64{curNs, curSize}
 				m, _, err := libRead(curText)
 				if err == nil && ver != prevVer {
@@ -306,6 +341,8 @@ func (h *harness) streamHistory(n, maxSteps int) {
 					// key=value of it is visible now and the observers were told
 					key := "reload:edit-not-loaded"
 					switch {
+					case prevRaced:
+						key = "reload:edit-during-reload-lost"
 					case prevVer[0] >= 0 && curNs <= prevVer[0]:
 						key = "reload:not-newer-mtime-edit"
 					case prevVer[0] >= 0 && prevVer[0]/1e9 == curNs/1e9:
@@ -342,6 +379,7 @@ func (h *harness) streamHistory(n, maxSteps int) {
 				}
 				prevVer = ver
 			}
+			prevRaced = racePre != nil
 			// every registered observer hears exactly what the reference observer hears; a replaced one nothing
 			refDelta := cnt - prevCount
 			for _, t := range targets {
@@ -391,10 +429,20 @@ func (h *harness) streamHistory(n, maxSteps int) {
 			if dead {
 				return // the rest of this history is not compared with the model
 			}
-			add(check{line: "R", want: fmt.Sprint(cnt), canon: lastField, onDiff: func(got string) {
+			rline := "R"
+			if racePre != nil && len(pendingE) == 1 {
+				// the model's racing reload: reload of the present file during which it becomes the edited one
+				rline = "RR " + strings.TrimPrefix(pendingE[0].line, "E ")
+				pendingE = nil
+			}
+			add(check{line: rline, want: fmt.Sprint(cnt), canon: lastField, onDiff: func(got string) {
 				h.rep.Fail("correspondence", "reload:decision", "reload decision / notification count differs from the model",
 					map[string]interface{}{"history": hs, "impl_notified": cnt, "model": got})
 			}})
+			for _, c := range pendingE {
+				add(c)
+			}
+			pendingE = nil
 			// a target registered from inside a callback during this round: the model is told how often it was
 			// visited in this very round (0 or 1 — unspecified); from now on it is an ordinary target
 			for _, ch := range children {
@@ -439,6 +487,7 @@ func (h *harness) streamHistory(n, maxSteps int) {
 			}
 		}
 		reload := func() {
+			defer func() { rp.hook, deferE, racePre, pendingE = nil, false, nil, nil }()
 			if dead {
 				return
 			}
@@ -553,7 +602,21 @@ func (h *harness) streamHistory(n, maxSteps int) {
 				logOp("delete")
 				h.rep.Count("history:delete")
 				add(check{line: "D", want: "ok"})
+			case x < 60:
+				reload()
 			case x < 66:
+				// an external edit lands in the middle of the reload: after reload took the stamp and read the file
+				if exists && !dead && reKind != "triggers-reload" { // (a nested reload would legitimately load the racing edit)
+					if _, _, err := libRead(curText); err == nil {
+						h.rep.Count("history:edit-during-reload")
+						rp.hook = func() {
+							racePre = &fileVer{curText, curNs, curSize}
+							deferE = true
+							edit(false)
+							deferE = false
+						}
+					}
+				}
 				reload()
 			case x < 74:
 				doSetValues()
